@@ -138,6 +138,28 @@ class Farm:
         json.dump(res, open(st, "w"))
         return res
 
+    def build_regen(self, key, parquet_file):
+        """C15: regenerate struct + reader/writer from a parquet file with `parquetgen -parquet`, compile with the driver."""
+        d = self.shape_dir("regen:" + key)
+        shutil.rmtree(d, ignore_errors=True)
+        os.makedirs(d)
+        res = {"key": "regen:" + key, "dir": d, "status": "ok", "detail": ""}
+        r = subprocess.run([self.gen, "-parquet", parquet_file, "-type", "Rec", "-package", "main", "-output", "parquet.go", "-struct-output", "rec.go"],
+                           cwd=d, capture_output=True, text=True)
+        if r.returncode != 0 or not os.path.exists(os.path.join(d, "rec.go")) or not os.path.exists(os.path.join(d, "parquet.go")):
+            res.update(status="gen-fail", detail=(r.stderr or r.stdout)[-600:])
+            return res
+        res["struct"] = open(os.path.join(d, "rec.go")).read()
+        for fn in os.listdir(os.path.join(HARNESS, "driver")):
+            if fn.endswith(".go"):
+                shutil.copy(os.path.join(HARNESS, "driver", fn), os.path.join(d, fn))
+        env = goenv()
+        env["GOFLAGS"] = "-mod=readonly"
+        r = subprocess.run(["go", "build", "-o", "drv", "."], cwd=d, env=env, capture_output=True, text=True)
+        if r.returncode != 0:
+            res.update(status="compile-fail", detail=r.stderr[-800:])
+        return res
+
     def tool(self, name):
         """Builds harness/<name> (a main package that imports the library) inside the farm module."""
         d = os.path.join(self.root, "_" + name)
@@ -585,6 +607,11 @@ class Check:
         self.violations = []   # dict(key, what, replay)
         self.known_hit = []
         self.known = [k for k in load_known() if k.get("property") == prop and k.get("status", "known") == "known"]
+        self.emit_path = None
+        for i, a in enumerate(sys.argv):
+            if a == "--emit-findings" and i + 1 < len(sys.argv):
+                self.emit_path = sys.argv[i + 1]
+                open(self.emit_path, "w").close()
         os.makedirs(os.path.join(WORK, "replay"), exist_ok=True)
 
     def is_known(self, key, what):
@@ -608,6 +635,9 @@ class Check:
     def report(self, key, what, replay_obj):
         """A reproduced disagreement between the real code and the specification.
         key identifies the failing input; listed findings are printed as such."""
+        if self.emit_path:
+            with open(self.emit_path, "a") as f:
+                f.write(json.dumps({"property": self.prop, "key": key, "what": what, "status": "known"}, ensure_ascii=False) + "\n")
         k = self.is_known(key, what)
         if k is not None:
             if key not in [x["key"] for x in self.known_hit]:
